@@ -57,11 +57,26 @@ for f in gencoqproject.closure(["GenEquiv/%s.v" % sys.argv[1]]):
 EOF
 )" || fail "cannot compute the Require closure"
 # coq/GenLib (GoSem, GoSemBridge) is ours: (re)compile what is missing or older than its source
+# a GenLib .vo is out of date when it is missing, older than its source or GoSem.v, or older than the
+# .vo of a model it requires (a model file has been edited and rebuilt since)
+genlib_stale() {
+  local f="$1" g
+  [ ! -f "$COQ/${f}o" ] && return 0
+  [ "$COQ/${f}o" -ot "$COQ/$f" ] && return 0
+  [ "$COQ/${f}o" -ot "$COQ/GenLib/GoSem.v" ] && return 0
+  for g in $(cd "$ROOT" && python3 -c "
+import sys; sys.path.insert(0,'tools'); import gencoqproject
+print(' '.join(x for x in gencoqproject.closure(['$f']) if x != '$f'))"); do
+    [ -f "$COQ/${g}o" ] && [ "$COQ/${f}o" -ot "$COQ/${g}o" ] && return 0
+    [ "$COQ/${f}o" -ot "$COQ/$g" ] && return 0
+  done
+  return 1
+}
 for f in GenLib/GoSem.v $(echo "$CLOSURE" | grep '^GenLib/' | grep -v '^GenLib/GoSem.v$'); do
-  if [ ! -f "$COQ/${f}o" ] || [ "$COQ/${f}o" -ot "$COQ/$f" ] || [ "$COQ/${f}o" -ot "$COQ/GenLib/GoSem.v" ]; then
+  if genlib_stale "$f"; then
     (
       flock 9
-      if [ ! -f "$COQ/${f}o" ] || [ "$COQ/${f}o" -ot "$COQ/$f" ] || [ "$COQ/${f}o" -ot "$COQ/GenLib/GoSem.v" ]; then
+      if genlib_stale "$f"; then
         for g in $(cd "$ROOT" && python3 -c "
 import sys; sys.path.insert(0,'tools'); import gencoqproject
 print(' '.join(x for x in gencoqproject.closure(['$f']) if not x.startswith('GenLib/')))"); do
